@@ -236,6 +236,82 @@ def cleanup_scratch():
             pass
 
 
+# --------------------------------------------------------------------------------------------
+# exhaust_tensor / terminal guard against coq/model/ExhaustGuard.v
+# --------------------------------------------------------------------------------------------
+
+
+def gen_iexpr(rng: random.Random, depth: int, ids):
+    if depth == 0 or rng.random() < 0.25:
+        r = rng.random()
+        if r < 0.6:
+            return {"t": rng.choice(ids)}
+        if r < 0.8:
+            return {"int": rng.choice([0, 0, 1, 2, -1])}
+        return {"float": rng.choice([0.0, 2.0, 1.0])}
+    k = rng.choice(["add", "mul", "mul"])
+    return {k: [gen_iexpr(rng, depth - 1, ids), gen_iexpr(rng, depth - 1, ids)]}
+
+
+def iexpr_term(j) -> str:
+    if "int" in j:
+        return f"(ILit true {z(j['int'])})"
+    if "float" in j:
+        return f"(ILit false {z(int(j['float']))})"
+    if "t" in j:
+        return f"(ITen {cstr(j['t'])})"
+    if "add" in j:
+        return f"(IAdd {iexpr_term(j['add'][0])} {iexpr_term(j['add'][1])})"
+    return f"(IMul {iexpr_term(j['mul'][0])} {iexpr_term(j['mul'][1])})"
+
+
+def exhaust_file(items) -> str:
+    rows = ";\n ".join(
+        f"({i}, ({iexpr_term(c['expr'])}, {strl(c['refs'])}, {iexpr_term(r['result'])}, {'true' if r['raises'] else 'false'}))"
+        for i, c, r in items
+    )
+    return (
+        "From Coq Require Import ZArith List Bool String. Import ListNotations.\n"
+        "From TV Require Import model.ExhaustGuard.\nOpen Scope Z_scope.\n"
+        "Fixpoint norm (e : iexpr) : iexpr := match e with IZero => ILit true 0 | IAdd l r => IAdd (norm l) (norm r) | IMul l r => IMul (norm l) (norm r) | _ => e end.\n"
+        "Fixpoint ieqb (a b : iexpr) : bool := match a, b with\n"
+        " | IZero, IZero => true | ILit i v, ILit j w => Bool.eqb i j && (v =? w) | ITen x, ITen y => String.eqb x y\n"
+        " | IAdd a1 a2, IAdd b1 b2 => ieqb a1 b1 && ieqb a2 b2 | IMul a1 a2, IMul b1 b2 => ieqb a1 b1 && ieqb a2 b2 | _, _ => false end.\n"
+        "Definition okb (c : iexpr * list string * iexpr * bool) : bool := let '(e, refs, res, raises) := c in\n"
+        "  ieqb (norm (exhaust_all refs e)) res && Bool.eqb (raises_flags (exhaust_all refs e)) raises.\n"
+        f"Definition cs : list (Z * (iexpr * list string * iexpr * bool)) := [\n {rows}].\n"
+        "Eval vm_compute in (map fst (filter (fun p => negb (okb (snd p))) cs)).\n"
+    )
+
+
+def exhaust_stream(chk: Check, n: int):
+    rng = random.Random(f"C03-exhaust:{chk.seed}")
+    ids = ["b", "c", "d", "e"]
+    cases = []
+    for _ in range(n):
+        e = gen_iexpr(rng, rng.choice([1, 2, 3, 4]), ids)
+        refs = [rng.choice(ids) for _ in range(rng.choice([0, 1, 1, 2, 3]))]
+        cases.append({"expr": e, "refs": refs})
+    _, recs, crashed, err, rc = launch_workers(chk, [{"mode": "exhaust", "cases": cases}])[0]
+    if crashed or len(recs) != len(cases):
+        chk.broken.append({"kind": "harness", "what": "exhaust worker failed", "stderr": err})
+        return
+    items = [(i, c, r) for i, (c, r) in enumerate(zip(cases, recs))]
+    ok, out = chk.coq_eval(f"c03_exhaust_{os.getpid()}", exhaust_file(items), timeout=600)
+    bad = parse_zlist(out) if ok else None
+    if bad is None:
+        chk.broken.append({"kind": "harness", "what": "exhaust Coq evaluation failed", "output": out[-1500:]})
+        return
+    for i in bad:
+        chk.broken.append({"kind": "correspondence", "what": "exhaust_tensor / terminal guard vs model/ExhaustGuard.v",
+                           "case": cases[i], "implementation": recs[i]})
+    chk.count("exhaust:cases", len(cases))
+    chk.count("exhaust:flags-raised", sum(1 for r in recs if r["raises"]))
+    chk.count("exhaust:flags-down", sum(1 for r in recs if not r["raises"]))
+    for c in cases:
+        chk.case(("exhaust", json.dumps(c, sort_keys=True)), nontrivial=bool(c["refs"]))
+
+
 def corpus_cases():
     d = VERIF / "corpus" / "C03"
     out = []
@@ -275,6 +351,7 @@ def run(chk: Check):
         "structural-support specification coq/spec/Support.v (hand-written reading of the property text; literal 0 counts as present)",
         "raw arrays read through cffi with malloc_usable_size bounds; stored sets of inputs computed in Coq from their raw arrays (Storage.entries)",
         "tools/harness/c03_mirror.py pre-filters the large sweep; cross-checked against the Coq oracle on the sample, on everything it flags and on injected phantoms",
+        "hand model coq/model/ExhaustGuard.v (exhaust_tensor + the terminal's guard) tied by correspondence only",
         "that the kernels of _generate_ir.py never store unsupported coordinates is TESTED (sweep with the proved checker as oracle), not proved",
     ]
     os.environ.pop(GUARD, None)
@@ -449,6 +526,7 @@ def run(chk: Check):
             chk.sample({"assignment": a, "formats": f, "sizes": o["sizes"], "entries": o["entries"], "output": o["out"],
                         "phantoms": []})
             k += 1
+    exhaust_stream(chk, 3000 if thorough else 800)
     chk.extra["oracle"] = "Support.no_phantomb (Coq, vm_compute); proved <-> 'every prefix stored by a compressed level has level_support' in props/C03.v"
     cleanup_scratch()
 
